@@ -80,12 +80,12 @@ def ops():
         ('out_last', lambda m: m.set_outputs([all_states(m)[-1]])),
         ('out_reversed', lambda m: m.set_outputs(list(reversed(m._output_names)))),          # the same variables in another order
         ('out_inter', lambda m: m.set_outputs([[v.qname() for v in m._model.variables(inter=True)][0]])),
-        ('rename_out', lambda m: m.set_output_names({first_out(m): 'OUT_%d' % len(m.outputs()[0])})),
-        ('rename_par', lambda m: m.set_parameter_names({m.parameters()[-1]: 'PAR_%d' % len(m.parameters()[-1])})),
+        ('rename_out', lambda m: m.set_output_names({first_out(m): 'a much longer published name for the output OUT_%d' % len(m.outputs()[0])})),
+        ('rename_par', lambda m: m.set_parameter_names({m.parameters()[-1]: 'a much longer published name for the parameter PAR_%d' % len(m.parameters()[-1])})),
         ('sens_on', lambda m: sens(m, None)),
         ('sens_subset', lambda m: sens(m, [len(m.parameters()) - 1])),
         ('sens_two', lambda m: sens(m, [len(m.parameters()) - 1, 0])),          # (induction step only) first and last parameter, given in reverse order
-        ('rename_first_par', lambda m: m.set_parameter_names({m.parameters()[0]: 'PAR0_%d' % len(m.parameters()[0])})),          # (induction step only)
+        ('rename_first_par', lambda m: m.set_parameter_names({m.parameters()[0]: 'a much longer published name for the parameter PAR0_%d' % len(m.parameters()[0])})),          # (induction step only)
         ('sens_off', lambda m: m.enable_sensitivities(False)),
         ('simulate', lambda m: m.simulate(np.arange(1, m.n_parameters() + 1, dtype=float) * 0.5, [1.0, 2.0])),
         ('copy', lambda m: m.copy()),
